@@ -2,7 +2,7 @@
 from ..engine import Layer
 from ..gen import cfg as G
 from .. import observe as O
-from .cfg_common import CFGProp, cfg_layers, W3
+from .cfg_common import CFGProp, cfg_layers, W3, word_map
 
 
 def shared_suffix_cases():
@@ -46,7 +46,7 @@ class C09(CFGProp):
         extra.append(Layer("suffix pair + one short production", G.suffix_triples,
                            policies=["natural@plain", "1@plain"]))
         extra.append(Layer("long production + used C#CNF#1, C#CNF#2", cnf2_shapes, policies=["natural@cnf2", "1@cnf2"]))
-        return cfg_layers(tier, adversarial=("cnf",), extra_quick=extra, extra_thorough=extra)
+        return cfg_layers(tier, adversarial=("cnf", "mixedval", "mixedter"), extra_quick=extra, extra_thorough=extra)
 
     def reference(self, case):
         r = self.ref_gram(case, "plain")
@@ -61,6 +61,7 @@ class C09(CFGProp):
     def check(self, case, ref, ctx):
         scheme = ctx.variant or "plain"
         lang = ref["lang"]
+        to_s, from_s = word_map(case, scheme)
         for op in self.OPS:
             clause = "C09." + op
             g = ctx.call(O.build_cfg, case, scheme, "full")
@@ -75,14 +76,14 @@ class C09(CFGProp):
                 continue
             x = x.value
             drop_eps = op in ("remove_epsilon", "to_normal_form")
-            got = x.lang_upto(4)
+            got = {from_s(w) for w in x.lang_upto(4)}
             want = lang
             if drop_eps:
                 got, want = got - {()}, lang - {()}
             if got != want:
                 ctx.fail(clause + ".lang", missing=sorted(want - got)[:3], extra=sorted(got - want)[:3],
                          result=x.describe())
-            ctx.batch_equal(clause + ".contains", lambda w: res.contains(list(w)),
+            ctx.batch_equal(clause + ".contains", lambda w: res.contains(list(to_s(w))),
                             [w for w in W3 if w or not drop_eps], lambda w: w in lang)
             if not lang:
                 # empty language: any shape that generates nothing is accepted
